@@ -608,6 +608,21 @@ class ProgGen:
             if of in self.subclass:
                 self.subclass.add(t)
             return {"i": i, "c": client, "op": "tcopy", "t": of, "to": t}
+        if r < 0.56:
+            # a transposed tensor as a new node: its index TYPES travel with the axes (a 3-cycle is not its own
+            # inverse, so applying the permutation the wrong way round shows)
+            cs = [t_ for t_ in self.tensor_cands(8) if 2 <= self.tensors[t_].arr.ndim <= 5 and not self.tensors[t_].free]
+            if cs:
+                a = rng.choice(cs)
+                mt = self.tensors[a]
+                perm = list(range(mt.arr.ndim))
+                rng.shuffle(perm)
+                t = self.new_t()
+                cov_ = set(mt.cov)
+                con_ = set(mt.con)
+                self.tensors[t] = MTensor(mt.arr.transpose(perm), [i_ for i_, j_ in enumerate(perm) if j_ in cov_],
+                                          [i_ for i_, j_ in enumerate(perm) if j_ in con_], mt.int8)
+                return {"i": i, "c": client, "op": "ttrans", "a": a, "perm": perm, "to": t}
         # add_edge
         cands = list(dict.fromkeys(d.nodes[-4:] + self.tensor_cands(4)))
         if rng.random() < cfg["p_self_edge_new"]:
@@ -800,6 +815,17 @@ def expectations(case: dict, state: dict | None = None) -> dict[int, tuple]:
                         nf = val[4]
                         ts[st["to"]] = MTensor(val[0], range(nf, nf + val[1]), range(nf + val[1], nf + val[1] + val[2]),
                                                _all_int8(d, ts), free=nf)
+            elif op == "ttrans":
+                if st["a"] not in ts:
+                    exp[i] = ("skip",)
+                    continue
+                mt = ts[st["a"]]
+                perm = st["perm"]
+                cov_, con_ = set(mt.cov), set(mt.con)
+                nt = MTensor(mt.arr.transpose(perm), [i_ for i_, j_ in enumerate(perm) if j_ in cov_],
+                             [i_ for i_, j_ in enumerate(perm) if j_ in con_], mt.int8)
+                ts[st["to"]] = nt
+                exp[i] = ("ok", (nt.arr, -1, -1, 0.0, 0, 0, nt.cov, nt.con))
             elif op in ("mul", "tprod", "pow"):
                 a = st["a"]
                 if a not in ts or ("b" in st and st["b"] not in ts) or ts[a].arr.ndim == 0 or \
@@ -1035,6 +1061,8 @@ class Exec:
             fn = lambda: T[st["a"]].tensor_product(T[st["b"]])  # noqa: E731
         elif op == "pow":
             fn = lambda: T[st["a"]] ** st["k"]  # noqa: E731
+        elif op == "ttrans":
+            fn = lambda: T[st["a"]].transpose(st["perm"])  # noqa: E731
         else:
             raise ValueError(op)
         r, n, faulted = self.call(st, ctx, fn)
@@ -1061,7 +1089,7 @@ class Exec:
                                     f"dimension mismatch), library {'raised ' + type(r).__name__ + ': ' + str(r) if is_exc else 'returned a value'}")
             return None
         # model predicts success
-        if op in ("calc", "mul", "tprod", "pow", "eps", "delta", "self_edge_new"):
+        if op in ("calc", "mul", "tprod", "pow", "eps", "delta", "self_edge_new", "ttrans"):
             flags = ("self-edge-on-unregistered-node",) if op == "self_edge_new" else ()
             v = compare_value(st, r, e[1], flags)
             self.stats["values_compared"] = self.stats.get("values_compared", 0) + 1
